@@ -20,6 +20,7 @@ def main(argv=None):
     ap.add_argument("--replay")
     ap.add_argument("--only")
     ap.add_argument("--no-selftest", action="store_true")
+    ap.add_argument("--no-evidence", action="store_true")
     args = ap.parse_args(argv)
     prop = args.prop.upper()
     if prop not in PROPS:
@@ -45,8 +46,12 @@ def main(argv=None):
             return 2
         print("%s: analysing %d units under %s (tier=%s)" % (prop, len(pkg.units), pkg.root, args.tier))
         run = Run(prop, args.tier, args.repo, mod.LEVEL, pkg=pkg, only=only)
+        run.no_evidence = args.no_evidence
         try:
             mod.run(run, pkg, args.tier)
+            if args.tier == "thorough" and only is None and not args.no_selftest:
+                from . import variants
+                variants.selftest_into(run, args.repo, prop)
         except AnalysisError as e:
             run.error(str(e))
         return run.finish()
